@@ -20,6 +20,10 @@ RULE = ('Hypothesis draws the state dimension d (1..4), snapshot count m (1..8, 
         'duplicated snapshots, add_one = False, or d = 1.')
 RULE += (' ' + 'Added classes: basis objects used before on another data matrix, coordinate-function bases on data of size 1e-9 ... 1e3 for HOCUR.')
 
+RULE += (' ' + 'Sub-check hocur_many_modes: 5 ... 64 modes of 1..3 functions with values in [0.48, 1] (constant, cos, Gauss, periodic Gauss), '
+         'm = 1..4 snapshots (optionally one duplicated), ranks m ... m+3; the dense tensor (up to 3^64 entries, beyond int64) is never formed: twelve probes per case '
+         '(single entries, positive rank-one contractions, partial sums) of the returned cores against prod_k w_k . v_k[:, j]; non-trivial = 13 or more modes.')
+
 ASSUMPTIONS = [
     'oracle: explicit Python loop over multi-indices and snapshots evaluating the basis functions point-wise',
     'data entries in [-1, 1]; basis-function values are O(1)',
@@ -27,6 +31,9 @@ ASSUMPTIONS = [
     'reconstruction compared at 1e-7 relative; cases whose unfoldings have singular-value ratios in (1e-13, 1e-4), or whose '
     'entries span more than nine orders of magnitude (or vanish exactly), are discarded (ill-conditioned cross approximation: a '
     'sampled cross can be numerically zero)',
+    'HOCUR with many modes: the same guards evaluated in closed form (singular values of every unfolding from the Hadamard product of the per-mode Gram matrices: '
+    'ratios >= 1e-3; entry range prod_k min/max |v_k| within nine decades); error model of the low-order class (entry-wise 1e-7 of the largest entry), '
+    'probes compared at 1e-6 max|Psi| prod_k ||w_k||_1 (measured on the unchanged tree: 3e-14)',
 ]
 
 FAMS = ['constant', 'identity', 'monomial', 'legendre', 'sin', 'cos', 'gauss', 'periodic_gauss']
